@@ -77,9 +77,9 @@ class Script:
             n = min(rng.choice([0, 1, 5, 8, 13, 64, 300, 1023]), free_bits)
             return ({'op': 'store_bits', 'bits': bitstr_of_list([rng.getrandbits(1) for _ in range(n)])}, {'what': 'bits', 'n': n}, n, 0)
         if k in ('bytes', 'string'):
-            n = min(rng.choice([1, 2, 3, 16, 32, 100, 127]), free_bits // 8)
-            if n < 1:
-                return None
+            n = min(rng.choice([1, 2, 3, 16, 32, 100, 127, 0, 0]), free_bits // 8)
+            if n < 1 and k == 'string':
+                return None          # (load_string(0) is documented as "everything that remains": an empty text field has no reader)
             if k == 'string':
                 # text with 1-, 2-, 3- and 4-byte UTF-8 characters (character count != byte count); the stored length is in bytes
                 txt = ''
